@@ -1060,7 +1060,7 @@ def main(tier: str) -> int:
         'or selects a proper non-empty part of the view; distinct = distinct '
         '(mailbox, program, SEARCH|UID SEARCH)')
     run.assumptions += [
-        'quick tier: dict backend only; thorough: also a sample on the maildir backend, '
+        'dict backend; a smaller sample on the maildir backend (4 views quick, 24 thorough), '
         'whose views have UIDs from 1, no keywords and no \\Recent (what that store can be '
         'brought to), with sizes as that store reports them',
         'RFC 3501 "disregarding time and timezone" is read as either the date as '
@@ -1094,6 +1094,9 @@ def main(tier: str) -> int:
         th.start()
         model_and_replay(run, 'Search_sample.cfg', 1000 + run.seed, stats, rng,
                          'sample', 8, corrupt)
+        # ... and a small sample on the maildir backend (4 views x about 2,000 programs)
+        model_and_replay(run, 'Search_maildir_quick.cfg', 2000 + run.seed, stats, rng,
+                         'maildir', 8, corrupt, backend='maildir')
         th.join()
         if 'res' in small_out:
             sres = small_out['res']
